@@ -435,6 +435,30 @@ def p3_isolate(ctx, flavours):
                 if not cfg.path_exists(r[0], e[0]) or cfg.path_exists(e[0], r[0]):
                     why.append('a clear can run before a neighbour removal')
                     break
+        # exactly one mirror removal per yielded edge: from the Some edge of the loop's next() no way back to next() around the
+        # removal(s) of that loop (a `continue` for some neighbours), and no inner cycle through a removal (`while remove().is_ok()`)
+        from .core import outcome_edges as _oe3
+        by_loop = {}
+        for e in rems:
+            it = _iter_item(e[2])
+            if it is not None:
+                by_loop.setdefault(it[2], []).append(e[0])
+        for nbi, rblocks in sorted(by_loop.items()):
+            se_, ne_ = _oe3(F, b, nbi)
+            if se_ is None:
+                why.append('the iterator step at bb%d is not branched on' % nbi)
+                continue
+            if se_[1] not in rblocks and cfg.path_exists(se_[1], nbi, avoiding=set(rblocks)):
+                why.append('some yielded edges skip the removal at the neighbour (a path from next() back to next() avoids it)')
+            for rb in rblocks:
+                tgt = b['blocks'][rb]['term'].get('target', -1)
+                if tgt is not None and tgt >= 0 and cfg.path_exists(tgt, rb, avoiding={nbi}):
+                    why.append('a neighbour removal can run more than once for one yielded edge')
+        # ... and nothing else that changes edges: no node-level mutator (connect / disconnect / try_connect / isolate) is called
+        reach_m, via_ = mutator_reach(ctx, fl)
+        for cbi, ct in calls_in(b, lambda t_: t_.get('local') and t_.get('res') in F.bodies and t_.get('res') not in M.methods):
+            if ct['res'] in reach_m and ct['res'] != b['q']:
+                why.append('calls %s, which changes edges on its own (on top of the mirror removals)' % ct['res'].split('::')[-1])
         out.append(Obl('P3', b['q'], b['span'], 'isolate = remove the mirror entry at every neighbour, then clear both own lists', not why, '; '.join(why) if why else '%d neighbour removals, 2 clears' % len(rems)))
     return out
 
